@@ -561,7 +561,7 @@ func (ck *Check) literalFields(ctx *Ctx, v ssa.Value) map[string]*Term {
 func init() {
 	register(&propSpec{ID: "C17", Run: checkC17,
 		Explanation: "In (*aws.NodeGroup).IncreaseSize every call that can reach an AWS write is behind δ ≥ 1 ∧ TargetSize + δ ≤ MaxSize (so a rejected request performs no write and desired capacity is never lowered); the set-capacity strategy sends exactly one SetDesiredCapacity with DesiredCapacity = TargetSize + δ for the group's own name; the fleet request has TotalTargetCapacity = MinTargetCapacity = δ on the option block selected by the lifecycle, Type instant; the slice handed to the attach step contains every acquired instance id; the attach calls are a head/tail chunking of that slice with chunk size ≤ 20 (each id in exactly one call).",
-		RuleText:    "R1 bounds first, R2 absolute set, R3 fleet request fields, R4 acquired set, R5 attach chunking, R6 fresh cached target (typestate of C07.R5), R7 id lists are not written in place while still read",
+		RuleText:    "R1 bounds first, R2 absolute set, R3 fleet request fields, R4 acquired set, R5 attach chunking, R6 fresh cached target (typestate of C07.R5), R7 id lists are not written in place while still read, R8 after CreateFleet the strategy leaves without attaching only if the call failed or returned nothing (C18.R3)",
 		Assumptions: []string{"that AWS honours MinTargetCapacity (all-or-nothing) and readiness polling are not decided"}})
 	register(&propSpec{ID: "C18", Run: checkC18,
 		Explanation: "In the attach step every return of a non-nil error is immediately preceded by a call of the injected terminate function whose argument is, by the chunking invariant, exactly the complement of the chunks already attached (whole input on timeout; rest ∪ failed batch inside the loop; the remainder on the final call); the success return calls no terminate; between a successful CreateFleet and the attach step nothing is dropped; the production caller injects terminateOrphanedInstances, which issues TerminateInstances per batch of ≤ 1000 ids built from the current batch only; the error is returned unchanged up to ScaleUp, which arms the lock only on err == nil.",
